@@ -22,12 +22,12 @@ type zkCase struct {
 	sys     string
 	op      string
 	args    []string
-	sess    int   // index of the session argument, -1 if the system has none
-	stmt    []int // indices of statement arguments
-	proof   []int // indices of proof arguments (single integers, points, or lists)
-	parts   int   // wire arity (0 = no NonEmptyMultiBytes codec)
+	sess    int                            // index of the session argument, -1 if the system has none
+	stmt    []int                          // indices of statement arguments
+	proof   []int                          // indices of proof arguments (single integers, points, or lists)
+	parts   int                            // wire arity (0 = no NonEmptyMultiBytes codec)
 	wire    func(args []string) []*big.Int // proof components in wire order
-	origin  string // "go-prover" | "model-prover"
+	origin  string                         // "go-prover" | "model-prover"
 	witness string
 }
 
